@@ -546,7 +546,7 @@ def run_grid(ctx, cfg, case, label="gen"):
             ptols = [phys_tol(lo, hi) for lo, hi in dims]
             for name, rows in zip(("phys_lower", "phys_upper", "phys_centre"), phys):
                 cmp_floats(f"grid.{name}", rows, ans[name], ptols)
-    float_physical_grid(ctx, case, req, ans, result, res_priors, upper_exc)
+    float_physical_grid(ctx, case, req, ans, result, res_priors, upper_exc, phys)  # phys: the lists read above, if they were
     # exact layer: the cells the theorems are about, against the floats of the implementation
     if cells_ok and "rat_cells" in ans and len(ans["rat_cells"]) == total:
         bad = None
@@ -882,7 +882,7 @@ def _same_or_close(impl, model_value, tols):
     return None
 
 
-def float_physical_grid(ctx, case, req, ans, result, res_priors, upper_exc):
+def float_physical_grid(ctx, case, req, ans, result, res_priors, upper_exc, phys=None):
     """GridSearchResult.physical_{lower_limits,upper_limits,centres}_lists against the float-level model
     (gate, exact rounding, clamp of UniformPrior.value_for on the measured quantile round trip): identical bits"""
     if upper_exc is not None or any(type(p).__name__ != "UniformPrior" for p in res_priors):
@@ -910,7 +910,8 @@ def float_physical_grid(ctx, case, req, ans, result, res_priors, upper_exc):
         attr = {"lower": "physical_lower_limits_lists", "upper": "physical_upper_limits_lists",
                 "centre": "physical_centres_lists"}[name]
         try:
-            impl = [[f2h(float(v)) for v in row] for row in getattr(result, attr)]
+            rows = phys[("lower", "upper", "centre").index(name)] if phys is not None else getattr(result, attr)
+            impl = [[f2h(float(v)) for v in row] for row in rows]
         except Exception as e:  # noqa
             impl = "limit" if _is_limit_exc(e) else "raised " + type(e).__name__
         how = _same_or_close(impl, model_value, tols)
